@@ -33,3 +33,8 @@ package inspector
 //@ func (s *Simple) LogRequest
 //@   property C13
 //@   trusted
+
+//@ func NewSimple
+//@   property C14
+//@   trusted
+//@   ensures res != nil
